@@ -40,7 +40,24 @@ type Framing struct {
 	// Conn.Read - the net.Conn-style read into the caller's buffer - a later one, and the reverse.
 	// Each call must begin where the previous one ended, whichever call that was.
 	APIs []string `json:",omitempty"`
+	// GoOn (client-read, round 9): after Conn.Read has refused a message for lack of room in the
+	// caller's buffer, the caller goes on reading from the same Conn with buffers that are large enough.
+	// Whatever the Conn does with the refused message (skip it, keep it for the next call, refuse
+	// everything from now on), a read that SUCCEEDS must return a message the peer sent.
+	GoOn bool `json:",omitempty"`
+	// IDBase is added to the ID of every message (client-read); drawn so that the first two octets of
+	// a message read as a plausible length.
+	IDBase uint16 `json:",omitempty"`
 }
+
+// knownShortBufDesync is the id of the finding "Conn.Read that refuses a message with
+// io.ErrShortBuffer has consumed the two-octet length and leaves the body in the stream, so the next
+// read takes octets from the middle of that message for a length and returns them as a message with
+// a nil error" (KNOWN_FINDINGS.txt). While it is listed and its probe reproduces, cases end at the
+// refusal (GoOn is cleared) as they did before round 9.
+const knownShortBufDesync = "read-shortbuffer-desyncs-stream"
+
+func (c *Framing) id(i int) uint16 { return msgID(i) + c.IDBase }
 
 var readAPIs = []string{"ReadMsg", "ReadMsgHeader", "ReadMsgHeaderHdr", "Read"}
 
@@ -91,7 +108,6 @@ func (c *Framing) coalesced() bool {
 	}
 	return false
 }
-
 
 var boundarySizes = []int{12, 13, 14, 18, 19, 31, 32, 33, 254, 255, 256, 257, 511, 512, 513, 4095, 4096, 4097, 16383, 16384, 16385, 32767, 32768, 65533, 65534, 65535}
 
@@ -209,7 +225,22 @@ func genFramingDir(dir string) func(t *rapid.T) Framing {
 				for _, s := range c.Sizes {
 					big = max(big, s)
 				}
-				c.BufLen = rapid.SampledFrom([]int{big, big + 1, 65534, 65535, 65536, 65537, 65548, 70000, 131071, 131072, 131072 + 12, 1 << 20}).Draw(t, "bufLen")
+				c.BufLen = rapid.SampledFrom([]int{big, big + 1, 65534, 65535, 65536, 65537, 65548, 70000, 131071, 131072, 131072 + 12, 1 << 20, 512, 512, big - 1}).Draw(t, "bufLen")
+			}
+			short := c.API == "ReadShortBuf"
+			for _, s := range c.Sizes {
+				short = short || (c.BufLen > 0 && c.BufLen < s)
+			}
+			if short && rapid.IntRange(0, 3).Draw(t, "goOn") > 0 {
+				if pbt.Known(knownShortBufDesync) {
+					pbt.Excluded(knownShortBufDesync)
+				} else {
+					c.GoOn = true
+				}
+			}
+			if rapid.IntRange(0, 3).Draw(t, "idBase") == 0 {
+				// the ID of the first message reads as a small length
+				c.IDBase = rapid.SampledFrom([]uint16{0, 1, 2, 12, 0x0019, 0x00ff, 0x0100, 0x0200}).Draw(t, "firstID") - msgID(0)
 			}
 			if rapid.IntRange(0, 9).Draw(t, "faulty") < 4 {
 				c.Fault = rapid.SampledFrom([]string{"eof", "eof", "err", "timeout"}).Draw(t, "fault")
@@ -336,6 +367,10 @@ func (c *Framing) classes() (cl []string, nontrivial bool) {
 	if c.Dir == "client-read" && c.coalesced() {
 		cl = append(cl, "frames-coalesced-in-one-read")
 	}
+	if c.GoOn {
+		cl = append(cl, "reads-go-on-after-a-short-buffer-refusal")
+		nontrivial = true
+	}
 	if len(c.APIs) > 0 {
 		cl = append(cl, "mixed-calls-on-one-Conn")
 		for i := 1; i < len(c.Sizes); i++ {
@@ -391,7 +426,7 @@ func checkClientRead(c Framing) error {
 	var bodies [][]byte
 	var stream []byte
 	for i, s := range c.Sizes {
-		body := buildMsg(msgID(i), s, c.Seeds[i], true)
+		body := buildMsg(c.id(i), s, c.Seeds[i], true)
 		bodies = append(bodies, body)
 		if c.OneWrite {
 			stream = append(stream, frame(body)...)
@@ -416,7 +451,7 @@ func checkClientRead(c Framing) error {
 		case "ReadMsgHeaderHdr":
 			var h dns.Header
 			got, err = co.ReadMsgHeader(&h)
-			if err == nil && i < len(bodies) && h.Id != msgID(i) {
+			if err == nil && i < len(bodies) && h.Id != c.id(i) {
 				err = fmt.Errorf("HARNESS-MISMATCH header ID %d", h.Id)
 			}
 			return got, nil, err
@@ -440,6 +475,49 @@ func checkClientRead(c Framing) error {
 			return buf[:n], nil, nil
 		}
 	}
+	// goOn: Read has refused message i because the caller's buffer (room octets) cannot hold it. The
+	// transport is healthy and the caller reads on with room for any message. The Conn may have skipped
+	// the refused message, may hand it out now, or may refuse every later call - but a call that
+	// succeeds returns a message the peer sent, in order: the length prefix still delimits.
+	goOn := func(i, room int, refusal error) error {
+		cands := []int{i, i + 1}
+		for k := 0; k <= len(bodies)-i; k++ {
+			api := c.apiOf(i + 1 + k)
+			var got []byte
+			var m *dns.Msg
+			var err error
+			switch api {
+			case "ReadMsg":
+				m, err = co.ReadMsg()
+			case "ReadMsgHeader", "ReadMsgHeaderHdr":
+				got, err = co.ReadMsgHeader(nil)
+			default:
+				api = "Read"
+				buf := make([]byte, 65535)
+				var n int
+				n, err = co.Read(buf)
+				got = buf[:n]
+			}
+			if err != nil {
+				return nil // refused, or the end of the stream
+			}
+			hit := -1
+			for _, j := range cands {
+				if j >= len(bodies) {
+					continue
+				}
+				if (m != nil && sameAsBuilt(m, c.id(j), len(bodies[j]), c.Seeds[j]) == nil) || (m == nil && bytes.Equal(got, bodies[j])) {
+					hit = j
+					break
+				}
+			}
+			if hit < 0 {
+				return fmt.Errorf("message %d (%d octets, ID %d) was refused because the caller's buffer has %d octets (%v); the transport is healthy, and call %d after that on the same Conn, %s with room for 65535 octets, returned %s with a nil error - no message the peer sent (sizes %v): the two-octet length no longer delimits the messages", i, len(bodies[i]), c.id(i), room, refusal, k+1, api, describe(got, m), c.Sizes)
+			}
+			cands = []int{hit + 1}
+		}
+		return nil
+	}
 	kept := make([][]byte, len(bodies))
 	for i, body := range bodies {
 		end := pos + 2 + len(body)
@@ -455,13 +533,19 @@ func checkClientRead(c Framing) error {
 			if err == nil {
 				return fmt.Errorf("message %d (%d octets) read into a %d-octet buffer: no error, %d octets returned", i, len(body), len(body)-1, len(got))
 			}
-			return nil // the stream position is undefined after this error
+			if c.GoOn {
+				return goOn(i, len(body)-1, err)
+			}
+			return nil // (cases of earlier rounds end here)
 		}
 		if api == "Read" && c.BufLen > 0 && c.BufLen < len(body) && wantOK {
 			if err == nil {
 				return fmt.Errorf("message %d (%d octets) read into a %d-octet buffer: no error, %d octets returned", i, len(body), c.BufLen, len(got))
 			}
-			return nil // too small a buffer: an error; the stream position is undefined afterwards
+			if c.GoOn {
+				return goOn(i, c.BufLen, err)
+			}
+			return nil // too small a buffer: an error (cases of earlier rounds end here)
 		}
 		if !wantOK {
 			if err == nil {
@@ -473,7 +557,7 @@ func checkClientRead(c Framing) error {
 			return fmt.Errorf("message %d (%d octets, stream octets %d..%d, fault %q at %d, caller buffer %d octets; frames coalesced in one read: %v): %s failed: %v", i, len(body), pos, end, c.Fault, c.FaultAt, c.BufLen, c.coalesced(), how, err)
 		}
 		if api == "ReadMsg" {
-			if e := sameAsBuilt(m, msgID(i), len(body), c.Seeds[i]); e != nil {
+			if e := sameAsBuilt(m, c.id(i), len(body), c.Seeds[i]); e != nil {
 				return fmt.Errorf("message %d (%d octets): ReadMsg returned a different message: %v", i, len(body), e)
 			}
 		} else if !bytes.Equal(got, body) {
@@ -778,7 +862,16 @@ func completeBefore(sizes []int, k int) (n, pos int) {
 	return n, pos
 }
 
+// probeShortBufDesync: two messages of 600 and 40 octets on a healthy stream, the first with ID 16; the
+// caller reads with a 512-octet buffer (dns.MinMsgSize), is told io.ErrShortBuffer, and reads on with a
+// 65535-octet buffer. While the defect is present the second Read takes the ID of message 0 for a
+// length and returns the 16 octets that follow it with a nil error.
+func probeShortBufDesync() error {
+	return checkClientRead(Framing{Dir: "client-read", API: "Read", Sizes: []int{600, 40}, Seeds: []byte{1, 2}, OneWrite: true, BufLen: 512, GoOn: true, IDBase: 16 - msgID(0)})
+}
+
 func init() {
+	pbt.Probe(knownShortBufDesync, probeShortBufDesync)
 	pbt.Register(pbt.Sub[Framing]{Name: "framing-client-read", Weight: 2.4, Gen: genFramingDir("client-read"), Check: checkFraming})
 	pbt.Register(pbt.Sub[Framing]{Name: "framing-client-write", Weight: 1.6, Gen: genFramingDir("client-write"), Check: checkFraming})
 	pbt.Register(pbt.Sub[Framing]{Name: "framing-server", Weight: 2, Gen: genFramingDir("server"), Check: checkFraming})
